@@ -11,7 +11,7 @@ open PycModel PycModel.View PycModel.ClimbConcrete
 
 variable {env : Env}
 
-def postfixStarters : List String := ["LPAREN", "LBRACKET", "PERIOD", "ARROW", "PLUSPLUS", "MINUSMINUS"]
+def postfixStarters : List String := ["LPAREN", "LBRACKET", "PERIOD", "ARROW", "PLUSPLUS", "MINUSMINUS", "LBRACE"]
 
 /-- the token after the operand does not continue it as a postfix expression -/
 def FollowOp (rest : List Tk) : Prop := ∀ k v r, rest = (k, v) :: r → k ∉ postfixStarters
